@@ -13,9 +13,10 @@ import (
 // only through a method it calls on it or through storage an accessor hands out.  Emitted:
 //
 //   calls    the sorted set of method names invoked through a selector whose root is not an imported package
-//            (`value.EachPair(…)`, `consumer.AddRef(…)`, `sc.process(…)` …)
+//            (`value.EachPair(…)`, `consumer.AddRef(…)` …), except the functions / methods the file declares itself
+//            (`sc.process(…)`: their bodies are scanned like the rest; extracting a new helper adds no name)
 //   writes   every assignment / inc-dec / copy / delete target, per enclosing function, classified by the ROOT of the target:
-//            "recv.<field>"  state of the serializer itself (`sc.values[value] = pos`: the memo table keyed by identity)
+//            "recv"          state of the serializer itself (`sc.values[value] = pos`: the memo table keyed by identity)
 //            "local"         a variable declared in the function is (re)bound
 //            "fresh-through" a write through a local that only ever holds storage created in the function (make, literal)
 //            "local-through" a write through any other local (it may alias storage of a value)
@@ -42,6 +43,12 @@ func genSerCalls() string {
 		pkgs[name] = true
 	}
 	calls := map[string]bool{}
+	own := map[string]bool{} // functions / methods declared in the file itself: calling one of them is not a call on a value
+	for _, d := range f.Decls {
+		if fd, ok := d.(*ast.FuncDecl); ok {
+			own[fd.Name.Name] = true
+		}
+	}
 	type wrow struct{ fn, what string }
 	writes := map[wrow]bool{}
 	root := func(x ast.Expr) (id string, through bool) {
@@ -148,33 +155,7 @@ func genSerCalls() string {
 			case id == "_":
 				return
 			case id != "" && id == recv:
-				what = "recv"
-				// first selector after the receiver names the field
-				x := lhs
-				for {
-					switch v := x.(type) {
-					case *ast.ParenExpr:
-						x = v.X
-						continue
-					case *ast.StarExpr:
-						x = v.X
-						continue
-					case *ast.IndexExpr:
-						x = v.X
-						continue
-					case *ast.SliceExpr:
-						x = v.X
-						continue
-					case *ast.SelectorExpr:
-						if b, ok := v.X.(*ast.Ident); ok && b.Name == recv {
-							what = "recv." + v.Sel.Name
-						} else {
-							x = v.X
-							continue
-						}
-					}
-					break
-				}
+				what = "recv" // state of the serializer itself (whatever field: `sc.values[value] = pos`, `sc.refIndex++`)
 			case id != "" && params[id]:
 				if !through {
 					what = "local" // re-binding the parameter variable itself
@@ -206,7 +187,7 @@ func genSerCalls() string {
 					target(&ast.IndexExpr{X: s.Args[0]})
 				}
 				if se, ok := s.Fun.(*ast.SelectorExpr); ok {
-					if id, _ := root(se.X); !(pkgs[id] && isIdent(se.X)) {
+					if id, _ := root(se.X); !(pkgs[id] && isIdent(se.X)) && !own[se.Sel.Name] {
 						calls[se.Sel.Name] = true
 					}
 				}
